@@ -40,6 +40,7 @@ from .errors import ConstraintLoadError, ConstraintLoadWarning, ReportableRuntim
 from .helper import get_query_helper_cls
 from .helper.expression_helper import value_nodes_from_path
 from .helper.path_helper import shacl_path_to_sparql_path
+from .helper.sparql_query_helper import query_with_shapes_graph_text
 from .pytypes import GraphLike, RDFNode, SHACLExecutor
 
 if TYPE_CHECKING:
@@ -366,7 +367,7 @@ class Shape(object):
                 if at['type'] == SH_SPARQLTarget:
                     qh = at['qh']
                     select = qh.apply_prefixes(qh.select_text)
-                    results = data_graph.query(select, initBindings=None)
+                    results = query_with_shapes_graph_text(data_graph, select, None)
                     if not results or len(results.bindings) < 1:
                         continue
                     for r in results:
@@ -515,7 +516,7 @@ class Shape(object):
                 if at['type'] == SH_SPARQLTarget:
                     qh = at['qh']
                     select = qh.apply_prefixes(qh.select_text)
-                    results = data_graph.query(select, initBindings=None)
+                    results = query_with_shapes_graph_text(data_graph, select, None)
                     if not results or len(results.bindings) < 1:
                         continue
                     for r in results:
